@@ -13,7 +13,7 @@ RULE = ("hostile strings over an alphabet of markup metacharacters (< > & \" ' `
         "template's own class names) placed, one slot at a time, in every user-controlled slot of generate_report (selector, file, bg, original_text, "
         "tuned_text) and to_html/to_html_bulk (fg, bg, tuned_fg, selector, file); compared with the report for a benign marker in the same slot: "
         "identical element/attribute skeleton, the text node / style value of the slot equals the control's with the marker replaced by the hostile "
-        "string verbatim. End-to-end: bulk API save_report with colour strings the lenient parser accepts, single-pair save_report, and the real CLI "
+        "string verbatim. End-to-end: bulk API save_report with colour strings the lenient parser accepts and with rejected entries carrying the hostile text, single-pair save_report, and the real CLI "
         "with markup in attribute-selector strings, file names and colour values. Non-trivial = hostile string containing at least one of < > & \" '; "
         "distinct = (generator, slot, string).")
 ASSUMPTIONS = ["html.parser tokenisation stands for a browser's for documents whose metacharacters are escaped; level badges come from a fixed vocabulary and are not user text"]
